@@ -119,10 +119,12 @@ func (ks *Keyspace) Exec(args [][]byte) Value {
 		if len(a) < 2 {
 			return errArgs(cmd)
 		}
-		nx, xx := false, false
+		nx, xx, get := false, false, false
 		ttl := int64(-1)
 		for i := 2; i < len(a); i++ {
 			switch strings.ToLower(string(a[i])) {
+			case "get": // Redis 6.2: answer with the old value (nil if there was none)
+				get = true
 			case "nx":
 				nx = true
 			case "xx":
@@ -141,11 +143,24 @@ func (ks *Keyspace) Exec(args [][]byte) Value {
 				return ErrV("ERR syntax error")
 			}
 		}
-		_, ex := ks.M[string(a[0])]
+		oldObj, ex := ks.M[string(a[0])]
+		if get && ex && oldObj.T != 's' {
+			return wrongType
+		}
+		var oldVal Value = NullBulk()
+		if get && ex {
+			oldVal = BulkV(cp(oldObj.Str))
+		}
 		if (nx && ex) || (xx && !ex) {
+			if get {
+				return oldVal
+			}
 			return NullBulk()
 		}
 		ks.M[string(a[0])] = &Obj{T: 's', Str: cp(a[1]), TTL: ttl}
+		if get {
+			return oldVal
+		}
 		return OKV()
 	case "setnx":
 		if len(a) != 2 {
